@@ -308,7 +308,6 @@ class QuicPacketRecovery:
             else self._rtt_initial
         )
         packet_threshold = space.largest_acked_packet - K_PACKET_THRESHOLD
-        time_threshold = now - loss_delay
 
         lost_packets = []
         space.loss_time = None
@@ -316,12 +315,14 @@ class QuicPacketRecovery:
             if packet_number > space.largest_acked_packet:
                 break
 
-            if packet_number <= packet_threshold or packet.sent_time <= time_threshold:
+            # The time at which the packet is deemed lost is also the deadline
+            # we ask the timer for: decide with the very same value, otherwise
+            # rounding can make a timer fired exactly on time find nothing lost.
+            packet_loss_time = packet.sent_time + loss_delay
+            if packet_number <= packet_threshold or packet_loss_time <= now:
                 lost_packets.append(packet)
-            else:
-                packet_loss_time = packet.sent_time + loss_delay
-                if space.loss_time is None or space.loss_time > packet_loss_time:
-                    space.loss_time = packet_loss_time
+            elif space.loss_time is None or space.loss_time > packet_loss_time:
+                space.loss_time = packet_loss_time
 
         self._on_packets_lost(now=now, packets=lost_packets, space=space)
 
